@@ -76,6 +76,11 @@ def wellformed(meta, version):
 
 
 def small_tree(rng, pl, single=False):
+    if rng.random() < 0.08:
+        # many pieces: > 102 v1 pieces, > 64 pieces in one file
+        from harness.common import Blob
+        big = ("big.bin", Blob.rand(rng.randrange(1, 40), 110 * pl + rng.choice([0, 1, 777])))
+        return [big] if single else [big, ("s", Blob.rand(3, 10))]
     if single:
         size = rng.choice([1, 100, pl, pl + 5, 3 * pl - 1])
         return [(rng.choice(gen.NAMES), gen.pick_blob(rng, size))]
